@@ -752,3 +752,77 @@ impl Dual2 {
         self.clone().into()
     }
 }
+
+// verification hooks: the Python-facing operator methods above are private to this module;
+// these wrappers make them callable from Rust-side monitors (no Python objects are involved)
+#[cfg(feature = "verif")]
+macro_rules! verif_py_ops {
+    ($t:ty) => {
+        impl $t {
+            pub fn verif_py_binop(&self, op: &str, other: Number) -> Option<Result<$t, ()>> {
+                let r = match op {
+                    "__add__" => self.__add__(other),
+                    "__radd__" => self.__radd__(other),
+                    "__sub__" => self.__sub__(other),
+                    "__rsub__" => self.__rsub__(other),
+                    "__mul__" => self.__mul__(other),
+                    "__rmul__" => self.__rmul__(other),
+                    "__truediv__" => self.__truediv__(other),
+                    "__rtruediv__" => self.__rtruediv__(other),
+                    "__pow__" => self.__pow__(other, None),
+                    _ => return None,
+                };
+                Some(r.map_err(|_| ()))
+            }
+            pub fn verif_py_cmp(&self, op: &str, other: Number) -> Option<Result<bool, ()>> {
+                let r = match op {
+                    "__eq__" => self.__eq__(other),
+                    "__lt__" => self.__lt__(other),
+                    "__le__" => self.__le__(other),
+                    "__gt__" => self.__gt__(other),
+                    "__ge__" => self.__ge__(other),
+                    _ => return None,
+                };
+                Some(r.map_err(|_| ()))
+            }
+            pub fn verif_py_unary(&self, op: &str) -> Option<$t> {
+                Some(match op {
+                    "__neg__" => self.__neg__(),
+                    "__exp__" => self.__exp__(),
+                    "__abs__" => self.__abs__(),
+                    "__log__" => self.__log__(),
+                    "__norm_cdf__" => self.__norm_cdf__(),
+                    "__norm_inv_cdf__" => self.__norm_inv_cdf__(),
+                    _ => return None,
+                })
+            }
+            pub fn verif_py_float(&self) -> f64 {
+                self.__float__()
+            }
+        }
+    };
+}
+#[cfg(feature = "verif")]
+verif_py_ops!(Dual);
+#[cfg(feature = "verif")]
+verif_py_ops!(Dual2);
+
+#[cfg(feature = "verif")]
+impl Dual {
+    pub fn verif_py_vars_from(other: &Dual, real: f64, vars: Vec<String>, dual: Vec<f64>) -> Result<Dual, ()> {
+        Dual::vars_from(other, real, vars, dual).map_err(|_| ())
+    }
+    pub fn verif_py_to_dual2(&self) -> Dual2 {
+        self.to_dual2_py()
+    }
+}
+
+#[cfg(feature = "verif")]
+impl Dual2 {
+    pub fn verif_py_vars_from(other: &Dual2, real: f64, vars: Vec<String>, dual: Vec<f64>, dual2: Vec<f64>) -> Result<Dual2, ()> {
+        Dual2::vars_from(other, real, vars, dual, dual2).map_err(|_| ())
+    }
+    pub fn verif_py_to_dual(&self) -> Dual {
+        self.to_dual_py()
+    }
+}
